@@ -24,6 +24,7 @@ AppliedVariants(n) ==
          \cup (IF n >= 2 THEN {<<Names[2], Names[1]>>, <<Names[1], "x.patch">>, <<"x.patch">>, <<Names[1], Names[1]>>} ELSE {<<"x.patch">>})
 Goals == {[g |-> "default"], [g |-> "all"], [g |-> "count", n |-> 0], [g |-> "count", n |-> 2], [g |-> "count", n |-> 7]}
            \cup {[g |-> "name", s |-> Names[i]] : i \in 1..3} \cup {[g |-> "name", s |-> "x.patch"]}
+           \cup {[g |-> "aname", s |-> Names[1]], [g |-> "aname", s |-> Names[2]], [g |-> "aname", s |-> "x.patch"], [g |-> "acount", n |-> 1]}
 \* a broken patch file at a position of the series: "none", or [pos, how \in {"missing","garbage"}]
 \* "garbage".."binary": one representative per error class of the token-level parser model (PatchText.tla)
 BrokenKinds == {"missing", "garbage", "truncated", "badheader", "nofilename", "binary"}
